@@ -15,7 +15,7 @@ RULE = ('S1: every assignment of a body from a generated menu (role leaves, '
         'decided under all 4 role subsets by Enforcer.enforce and by the '
         'store+language reference model; S2: for each such rule set, every '
         'occurrence of a reference to a defined name replaced by the '
-        'parenthesised body - decisions must not move; S3: every alias chain '
+        'parenthesised body - decisions must not move; S3long: chains of the six depths beyond the S3 bound with link kinds periodic (all 64 period-3 patterns); S3: every alias chain '
         'a0->...->a_n with links from {rule:next, not rule:next, rule:next '
         'and role:x, rule:next or role:x} and a final body role:y / undefined '
         'reference; S4: recording check kinds with and without a '
@@ -168,6 +168,11 @@ def plan(tier, seed):
     for lo, hi in core.chunks(nlinks, 16 if tier == 'quick' else 64):
         jobs.append({'space': 'S3', 'lo': lo, 'hi': hi, 'tier': tier,
                      'weight': (hi - lo) * 3})
+    # long chains: depths beyond the exhaustive bound, link kinds periodic
+    # with period 3 (all 64 patterns, the four uniform ones among them)
+    for d in range(b['chain'] + 1, b['chain'] + 7):
+        jobs.append({'space': 'S3long', 'tier': tier, 'depth': d,
+                     'weight': 64 * 3 * 3})
     jobs.append({'space': 'S4', 'tier': tier, 'weight': 500})
     for i in range(8):
         if i < len(PAIR_SETS):
@@ -328,6 +333,8 @@ def run(job, seed):
         acc.sample('S1', rules)
     elif job['space'] == 'S3':
         run_chains(acc, enf, job, b['chain'])
+    elif job['space'] == 'S3long':
+        run_chains(acc, enf, dict(job, lo=0, hi=64), job['depth'], period=3)
     elif job['space'] == 'S5':
         run_redefine(acc, job, 3 if job['tier'] == 'quick' else 4)
     else:
@@ -344,13 +351,17 @@ def _shape(rules, default):
 LINKS = ['rule:%s', 'not rule:%s', 'rule:%s and role:x', 'rule:%s or role:x']
 
 
-def run_chains(acc, enf, job, depth):
+def run_chains(acc, enf, job, depth, period=None):
     for idx in range(job['lo'], job['hi']):
         x = idx
         rules = {}
-        for i in range(depth):
-            rules['a%d' % i] = LINKS[x % 4] % ('a%d' % (i + 1))
+        digits = []
+        for i in range(period or depth):
+            digits.append(x % 4)
             x //= 4
+        for i in range(depth):
+            rules['a%d' % i] = LINKS[digits[i % len(digits)]] % (
+                'a%d' % (i + 1))
         for last in ('role:y', 'rule:zz', 'not rule:zz'):
             rules['a%d' % depth] = last
             acc.case('S3', True)
